@@ -104,6 +104,21 @@ impl HeapBuffer {
         Ok(HeapBuffer { ptr, len })
     }
 
+    /// Creates a buffer of exactly `capacity` bytes holding a copy of `text`.
+    ///
+    /// `capacity` must be greater than or equal to `text.len()`.
+    pub(super) fn with_capacity_from(text: &str, capacity: usize) -> Result<Self, ReserveError> {
+        debug_assert!(text.len() <= capacity);
+        let mut buf = HeapBuffer::with_capacity(capacity)?;
+        // SAFETY: `buf` was just allocated with room for `capacity >= text.len()` bytes, is
+        // unique, and `text` is valid UTF-8.
+        unsafe {
+            ptr::copy_nonoverlapping(text.as_ptr(), buf.ptr.as_ptr(), text.len());
+            buf.set_len(text.len());
+        }
+        Ok(buf)
+    }
+
     pub(super) fn capacity(&self) -> usize {
         self.header().capacity.as_usize()
     }
